@@ -81,6 +81,9 @@ def parse_batch(output, harnesses):
                 r["status"] = "failed"
         elif "CBMC timed out" in line:
             r["status"] = "timeout"
+        elif "run out of memory" in line:
+            r["status"] = "timeout"
+            r["oom"] = True
         elif line.startswith("CBMC failed") or "exited with status" in line or "unexpectedly panicked" in line:
             r.setdefault("tool_error", True)
         elif line.startswith("Verification Time:"):
